@@ -3,6 +3,7 @@
 From Coq Require Import List NArith ZArith Bool Lia.
 From Emmet Require Import lib.Base model.MarkupTokenizer model.MarkupParser model.MarkupConvert
      model.MarkupResolve proofs.AttrProofs.
+From Emmet Require proofs.BemProofs.
 Import ListNotations.
 
 (* ------------------------------------------------------------------ one level of walk_resolve,
@@ -463,7 +464,9 @@ Theorem markup_parse_terminates : forall (cfg : mconfig) (abbr : str), markup_pa
 Proof.
   intros. unfold markup_parse.
   apply bind_no_oof; [apply parse_abbr_no_oof|]. intros tree _.
-  apply bind_no_oof; [apply resolve_terminates|]. intros; discriminate.
+  apply bind_no_oof; [apply resolve_terminates|]. intros resolved _.
+  (* the transform pass (BEM addon included) is total: BemProofs.transform_list_ok *)
+  destruct (BemProofs.transform_list_ok cfg resolved) as [t Et]. rewrite Et. discriminate.
 Qed.
 
 (* ------------------------------------------------------------------ nesting depth: fuel counts the
